@@ -616,6 +616,75 @@ func gen() ([]byte, error) {
 		}
 		b.WriteString("\n")
 	}
+	// client message handlers: which are registered through msg.AsyncHandler, and whether the ones that
+	// run inside the dispatcher's read loop do blocking I/O in place
+	{
+		reg, err := need(ctl, "Control.registerMsgHandlers")
+		if err != nil {
+			return nil, err
+		}
+		known := map[string]string{"ReqWorkConn": "reqworkconn", "NewProxyResp": "newproxyresp", "NatHoleResp": "natholeresp", "Pong": "pong"}
+		seen := map[string]bool{}
+		blockingNote := ""
+		nonblocking := true
+		var rerr error
+		ast.Inspect(reg.Body, func(n ast.Node) bool {
+			c, ok := n.(*ast.CallExpr)
+			if !ok || rerr != nil {
+				return true
+			}
+			sel, ok := c.Fun.(*ast.SelectorExpr)
+			if !ok || sel.Sel.Name != "RegisterHandler" {
+				return true
+			}
+			if len(c.Args) != 2 {
+				rerr = fmt.Errorf("RegisterHandler with %d arguments", len(c.Args))
+				return false
+			}
+			t := strings.TrimSuffix(strings.TrimPrefix(src(fset, c.Args[0]), "&msg."), "{}")
+			name, ok := known[t]
+			if !ok || seen[t] {
+				rerr = fmt.Errorf("client handler for unknown or repeated message type %s", src(fset, c.Args[0]))
+				return false
+			}
+			seen[t] = true
+			h := c.Args[1]
+			async := false
+			if hc, ok := h.(*ast.CallExpr); ok && isSel(hc.Fun, "msg", "AsyncHandler") && len(hc.Args) == 1 {
+				async = true
+				h = hc.Args[0]
+			}
+			hs, ok := h.(*ast.SelectorExpr)
+			if !ok || src(fset, hs.X) != "ctl" {
+				rerr = fmt.Errorf("handler expression not recognised: %s", src(fset, c.Args[1]))
+				return false
+			}
+			fmt.Fprintf(&b, "Definition gen_cli_async_%s : bool := %s.\n", name, boolS(async))
+			if !async {
+				hf, err := need(ctl, "Control."+hs.Sel.Name)
+				if err != nil {
+					rerr = err
+					return false
+				}
+				body := src(fset, hf.Body)
+				for _, pat := range []string{"connectServer(", ".Connect()", "net.Dial", "msg.ReadMsg", "msg.WriteMsg(", "time.Sleep(", "<-"} {
+					if strings.Contains(body, pat) {
+						nonblocking = false
+						blockingNote += fmt.Sprintf("   %s runs in the read loop and contains %s\n", hs.Sel.Name, tx.Sanitize(pat))
+					}
+				}
+			}
+			return true
+		})
+		if rerr != nil {
+			return nil, rerr
+		}
+		if len(seen) != len(known) {
+			return nil, fmt.Errorf("registerMsgHandlers registers %d of the %d known client handlers", len(seen), len(known))
+		}
+		b.WriteString("(* handlers that run inside msg.Dispatcher.readLoop do no dial / read / write / sleep / channel receive in place\n" + blockingNote + " *)\n")
+		fmt.Fprintf(&b, "Definition gen_cli_sync_handlers_nonblocking : bool := %s.\n\n", boolS(nonblocking))
+	}
 	run, err := need(svc, "Service.Run")
 	if err != nil {
 		return nil, err
